@@ -378,8 +378,9 @@ func (e *kvElection) attemptAcquire() error {
 	)
 
 	e.recordAcquireAttempt("success")
-	e.endSupersededTerm()
-	e.becomeLeader(token, rev)
+	if e.endSupersededTerm(rev) {
+		e.becomeLeader(token, rev)
+	}
 	return nil
 }
 
@@ -390,10 +391,21 @@ func (e *kvElection) attemptAcquire() error {
 // new token. That is a new term: the old one is ended first (OnDemote, term
 // context cancelled) so that callbacks keep alternating and the token stays
 // constant within a term.
-func (e *kvElection) endSupersededTerm() {
-	if e.IsLeader() && e.becomeFollower() {
+//
+// It reports whether the acquisition that wrote revision rev should be
+// adopted. It should not when the instance already leads with a newer record
+// of its own: answers can arrive out of order, and the older write is history.
+func (e *kvElection) endSupersededTerm(rev uint64) bool {
+	if !e.IsLeader() {
+		return true
+	}
+	if rev <= e.revision.Load() {
+		return false
+	}
+	if e.becomeFollower() {
 		e.notifyDemoted("superseded_by_own_reacquisition")
 	}
+	return true
 }
 
 func (e *kvElection) becomeLeader(token string, rev uint64) {
@@ -550,8 +562,9 @@ func (e *kvElection) attemptPriorityTakeover(payloadBytes []byte) error {
 		return fmt.Errorf("failed to unmarshal payload after takeover: %w", err)
 	}
 
-	e.endSupersededTerm()
-	e.becomeLeader(newPayloadStruct.Token, newRev)
+	if e.endSupersededTerm(newRev) {
+		e.becomeLeader(newPayloadStruct.Token, newRev)
+	}
 	return nil
 }
 
